@@ -31,15 +31,16 @@ VARIABLES ready, enabled, haskick, reg, counter,    \* ring / epoll / eventfd
           cpc, cop, next,                            \* control thread, index of next scripted message
           kicks,                                     \* kicks raised so far
           quiet, owed, p1, p2, died, spins,          \* monitors; spins bounds the worker's busy loop
-          sched                                      \* schedule (history of controller commands)
+          sched,                                     \* schedule (history of controller commands)
+          wfree                                      \* per command: the worker is asleep and cannot be woken in the state it leaves
 
-vars == <<ready, enabled, haskick, reg, counter, wpc, wEnabled, cpc, cop, next, kicks, quiet, owed, p1, p2, died, spins, sched>>
+vars == <<ready, enabled, haskick, reg, counter, wpc, wEnabled, cpc, cop, next, kicks, quiet, owed, p1, p2, died, spins, sched, wfree>>
 
 Init == /\ ready = TRUE /\ enabled = TRUE /\ haskick = TRUE /\ reg = TRUE /\ counter = 0
         /\ wpc = "wait" /\ wEnabled = FALSE
         /\ cpc = "idle" /\ cop = "" /\ next = 1
         /\ kicks = 0 /\ quiet = FALSE /\ owed = FALSE /\ p1 = FALSE /\ p2 = FALSE /\ died = FALSE /\ spins = 0
-        /\ sched = <<>>
+        /\ sched = <<>> /\ wfree = <<>>
 
 Cmd(c) == sched' = Append(sched, c)
 Active == ready /\ enabled
@@ -133,7 +134,13 @@ CReply == /\ cpc = "ctl"
           /\ Cmd("c")
           /\ UNCHANGED <<ready, enabled, haskick, reg, counter, wpc, wEnabled, cop, next, kicks, owed, p1, p2, died, spins>>
 
-Next == Kick \/ Wake \/ WRead \/ WCheck \/ WDispatch \/ Send \/ CReady \/ CCtl \/ CDropKick \/ CReply
+\* After a command the model's worker may be asleep with nothing that could wake it.  A real worker that shows up at a hold point
+\* in such a state was woken by something the design does not account for (e.g. an epoll registration that outlived its
+\* descriptor): the replay then lets it run on instead of parking it until the schedule's next worker command, so that what it
+\* does with the wake-up (consume a kick without processing it ...) becomes part of the recorded behaviour.
+WIdle == wpc = "wait" /\ ~(reg /\ counter > 0 /\ (enabled \/ spins < 1))
+Steps == Kick \/ Wake \/ WRead \/ WCheck \/ WDispatch \/ Send \/ CReady \/ CCtl \/ CDropKick \/ CReply
+Next == Steps /\ wfree' = IF sched' # sched THEN Append(wfree, WIdle') ELSE wfree
 Spec == Init /\ [][Next]_vars
 
 \* quiescence: script finished, nothing can move any more
